@@ -263,7 +263,9 @@ impl SingleByteDecoder {
                 total += 1;
                 bytes = &bytes[offset + 1..];
             } else {
-                return total;
+                // The rest of the buffer is ASCII, which is always
+                // Latin1-byte-compatible, so it needs to be counted, too.
+                return total + bytes.len();
             }
         }
     }
